@@ -69,6 +69,7 @@ class OptionModel:
         self.tags = {}              # (n, i) -> reason text
         self.where = None
         self.npaths = 0
+        self.undecided = set()      # tests on the number of fields that could not be evaluated
 
     @property
     def arity(self):
@@ -84,9 +85,11 @@ class OptionModel:
         return (n, i) in self.tags
 
 
-def _prelude(body, k):
-    """simple definitions before statement k that later statements may refer to (tables of literals)"""
+def _prelude(body, k, consts=None):
+    """simple definitions before statement k that later statements may refer to (tables of literals, bounds taken
+    from a module-level table: n_min, n_max = FIELDS)"""
     env = {}
+    consts = consts or {}
     for st in body[:k]:
         if isinstance(st, ast.Assign) and len(st.targets) == 1 and isinstance(st.targets[0], ast.Name):
             if not any(isinstance(n, ast.Call) for n in ast.walk(st.value)) and \
@@ -94,6 +97,25 @@ def _prelude(body, k):
                 env[st.targets[0].id] = st.value
             else:
                 env.pop(st.targets[0].id, None)
+        elif isinstance(st, ast.Assign) and len(st.targets) == 1 and isinstance(st.targets[0], ast.Tuple) and \
+                all(isinstance(t_, ast.Name) for t_ in st.targets[0].elts):
+            v = st.value
+            if isinstance(v, ast.Name) and v.id not in env and isinstance(consts.get(v.id), ast.Tuple):
+                v = consts[v.id]
+            elif isinstance(v, ast.Name) and isinstance(env.get(v.id), ast.Tuple):
+                v = env[v.id]
+            if isinstance(v, ast.Tuple) and len(v.elts) == len(st.targets[0].elts) and \
+               all(isinstance(x_, ast.Constant) for x_ in v.elts):
+                for t_, x_ in zip(st.targets[0].elts, v.elts):
+                    env[t_.id] = x_
+            else:
+                for t_ in st.targets[0].elts:
+                    env.pop(t_.id, None)
+        else:
+            # anything else that binds a name takes the simple meaning away
+            for n in ast.walk(st):
+                if isinstance(n, ast.Name) and isinstance(n.ctx, ast.Store) and n.id in env:
+                    del env[n.id]
     return env
 
 
@@ -133,6 +155,8 @@ def main_slices(ctx, entry='mininec.main'):
         raise AnalysisError('%s: the parse_args call was not found' % entry)
     out = []
     consumed = set()
+    from .symx import module_constants
+    consts = module_constants(f.module)
     for k in range(start, len(body)):
         if k in consumed:
             continue
@@ -142,7 +166,7 @@ def main_slices(ctx, entry='mininec.main'):
         if not dests:
             # a loop over a table of (name, args.x, ...) defined just before
             names = {n.id for n in ast.walk(st) if isinstance(n, ast.Name)}
-            pre = _prelude(body, k)
+            pre = _prelude(body, k, consts)
             for nm in names & set(pre):
                 dests |= set(re.findall(r'\bargs\.(\w+)', norm(pre[nm])))
             if not dests:
@@ -167,7 +191,7 @@ def main_slices(ctx, entry='mininec.main'):
                 consumed.add(j)
         sx = SymExec(ctx, f, bind_loops=True, objects=True, effects=True, max_paths=20000, depth=3)
         try:
-            paths = sx.run(stmts=stmts, env=_prelude(body, k))
+            paths = sx.run(stmts=stmts, env=_prelude(body, k, consts))
         except AnalysisError:
             continue
         out.append((st, dests, paths))
@@ -234,6 +258,14 @@ def reader_model(ctx, entry='mininec.main'):
                     ok = False
             if ok and idx:
                 dispatch = (n.func.slice.value, idx)
+    # module-level names bound once to a whole number (ANGLE_FIELDS = 3)
+    int_consts = {}
+    for (mod_, nm_), v_ in ctx.model.module_consts.items():
+        if mod_ == f.module.name and isinstance(v_, ast.Constant) and isinstance(v_.value, int) and not isinstance(v_.value, bool):
+            n_bind = sum(1 for st_ in f.module.tree.body for t_ in (st_.targets if isinstance(st_, ast.Assign) else [])
+                         if isinstance(t_, ast.Name) and t_.id == nm_)
+            if n_bind == 1:
+                int_consts[nm_] = v_.value
     for st, dests, paths in main_slices(ctx, entry):
         for p in paths:
             texts = [norm(ev[1]) if not isinstance(ev[1], (str, tuple)) else '' for ev in p.events] + \
@@ -256,7 +288,8 @@ def reader_model(ctx, entry='mininec.main'):
                 rejecting = p.end == 'return' and isinstance(p.ret, ast.Constant) and p.ret.value is not None
                 lenP = 'len(%s)' % P
                 for n_ in range(0, MAXN + 1):
-                    env = {lenP: n_}
+                    env = dict(int_consts)
+                    env[lenP] = n_
                     feasible = True
                     for t, b in p.conds:
                         if not isinstance(b, bool) or lenP not in t:
@@ -264,6 +297,9 @@ def reader_model(ctx, entry='mininec.main'):
                         try:
                             v = _val(ast.parse(t, mode='eval').body, env)
                         except (Undecided, SyntaxError, TypeError):
+                            if P + '[' not in t:
+                                # a test on the count alone (not on what a field holds) that is not understood
+                                om.undecided.add(re.sub(r'_k\d+', '_k', t))
                             continue
                         if bool(v) != b:
                             feasible = False
